@@ -358,6 +358,9 @@ func (env *Env) evalIdent(e *ast.Ident) Val {
 	case "nil":
 		return Val{T: "nil", Sort: "nil"}
 	case "result":
+		if v, ok := env.loopVars["result"]; ok {
+			return v // a source-level variable named result (loop invariants)
+		}
 		if len(env.results) < 1 {
 			bail("no result in this context")
 		}
@@ -759,6 +762,14 @@ func (env *Env) evalCall(e *ast.CallExpr) Val {
 				}
 			}
 			rng := And(App("<=", lo.T, bv), App("<", bv, hi.T))
+			// re-anchor the quantifier on the absolute array index of its first slice access, so that the
+			// trigger (select arr j) matches any index term (no arithmetic inside the pattern)
+			if nb, nbody, nrng, pat, ok := reanchor(fc, body, rng, bv); ok && os.Getenv("GOVC_REANCHOR") != "" {
+				if id.Name == "forall" {
+					return boolVal(fmt.Sprintf("(forall ((%s Int)) (! %s :pattern (%s)))", nb, Imp(nrng, nbody), pat))
+				}
+				return boolVal(fmt.Sprintf("(exists ((%s Int)) (! %s :pattern (%s)))", nb, And(nrng, nbody), pat))
+			}
 			if id.Name == "forall" {
 				if pats := selectPatterns(body, bv); len(pats) > 0 && os.Getenv("GOVC_NOPATTERNS") == "" {
 					return boolVal(fmt.Sprintf("(forall ((%s Int)) (! %s :pattern (%s)))", bv, Imp(rng, body), pats[0]))
@@ -1185,6 +1196,83 @@ func selectPatterns(body, bv string) []string {
 	walk(body)
 	// prefer patterns over the current (non-old) state: the first one found
 	return pats
+}
+
+// reanchor rewrites a bounded quantifier over a relative index bv into one over the absolute index j of its
+// first slice access (select ARR (at OFF bv)): occurrences of (at OFF bv) become j, other occurrences of bv
+// become (- j OFF). ARR and OFF must not mention bv.
+func reanchor(fc *fnCtx, body, rng, bv string) (nb, nbody, nrng, pat string, ok bool) {
+	var anchor, arr, off string
+	var walk func(t string)
+	walk = func(t string) {
+		if anchor != "" || !strings.HasPrefix(t, "(") {
+			return
+		}
+		args := splitSexp(t)
+		if len(args) == 0 {
+			return
+		}
+		if args[0] == "select" && len(args) == 3 && !mentions(args[1], bv) && patternOK(args[1]) {
+			ia := splitSexp(args[2])
+			if len(ia) == 3 && ia[0] == "at" && ia[2] == bv && !mentions(ia[1], bv) {
+				anchor, arr, off = args[2], args[1], ia[1]
+				return
+			}
+		}
+		for _, a := range args[1:] {
+			walk(a)
+		}
+	}
+	walk(body)
+	if anchor == "" {
+		return
+	}
+	nb = Sym(strings.ReplaceAll(strings.Trim(fc.sc.Fresh("q.j"), "|"), "~", "_"))
+	rel := App("-", nb, off)
+	sub := func(t string) string {
+		t = strings.ReplaceAll(t, anchor, nb)
+		return replaceSym(t, bv, rel)
+	}
+	return nb, sub(body), sub(rng), App("select", arr, nb), true
+}
+
+// replaceSym replaces whole-token occurrences of a symbol.
+func replaceSym(t, sym, by string) string {
+	var b strings.Builder
+	n := len(t)
+	for i := 0; i < n; {
+		c := t[i]
+		if c == '"' || c == '|' {
+			j := i + 1
+			for j < n && t[j] != c {
+				j++
+			}
+			tok := t[i:min(j+1, n)]
+			if tok == sym {
+				b.WriteString(by)
+			} else {
+				b.WriteString(tok)
+			}
+			i = j + 1
+			continue
+		}
+		if isSymChar(c) {
+			j := i
+			for j < n && isSymChar(t[j]) {
+				j++
+			}
+			if t[i:j] == sym {
+				b.WriteString(by)
+			} else {
+				b.WriteString(t[i:j])
+			}
+			i = j
+			continue
+		}
+		b.WriteByte(c)
+		i++
+	}
+	return b.String()
 }
 
 // appPattern finds an application of an uninterpreted function (f!...) in body that mentions bv and can serve as a trigger.
